@@ -36,6 +36,15 @@ func (c *Ctx) runQueryPurity(eng *effEngine, pkgs []*packages.Package, rule stri
 	c.runQueryPurityFor(eng, pkgs, rule, queryInterfaces)
 }
 
+// runMemo: like Q, but synchronised writes count as well: a query method that
+// stores into its receiver keeps a cache, and a cache of values derived from
+// exported, assignable fields goes stale when a field is changed.
+func (c *Ctx) runMemo(eng *effEngine, pkgs []*packages.Package, rule string, ifaces map[string][]string) {
+	c.memoMode = true
+	c.runQueryPurityFor(eng, pkgs, rule, ifaces)
+	c.memoMode = false
+}
+
 func (c *Ctx) runQueryPurityFor(eng *effEngine, pkgs []*packages.Package, rule string, queryInterfaces map[string][]string) {
 	// collect the interfaces
 	type iface struct {
@@ -139,7 +148,7 @@ func (c *Ctx) runQueryPurityFor(eng *effEngine, pkgs []*packages.Package, rule s
 		c.analysed(t.name)
 		var bad []effect
 		for _, ef := range eng.summaries[t.fn] {
-			if ef.locked {
+			if ef.locked && !c.memoMode {
 				continue
 			}
 			switch ef.root.kind {
@@ -173,7 +182,11 @@ func (c *Ctx) runQueryPurityFor(eng *effEngine, pkgs []*packages.Package, rule s
 			c.except(rule, key, t.fn.Pos(), reason)
 			continue
 		}
-		c.bad(rule, key, t.fn.Pos(), detail+" (concurrent queries would race)")
+		if c.memoMode {
+			c.bad(rule, key, t.fn.Pos(), detail+" (a query that stores into its receiver keeps a cache; it goes stale when a field it was computed from is changed, and it races unless synchronised)")
+		} else {
+			c.bad(rule, key, t.fn.Pos(), detail+" (concurrent queries would race)")
+		}
 	}
 }
 
